@@ -1206,6 +1206,13 @@ class Gen(object):
         kw = {'overflow': 'saturate'}
         if r.random() < 0.6:
             kw['rounding'] = r.choice(ROUNDINGS)
+        if val[0] == 'i' and r.random() < 0.25:
+            # a list mixing huge and ordinary Python integers, both signs
+            items = [val, ['i', r.randint(-5, 5)]]
+            if r.random() < 0.5:
+                items.append(['i', -val[1] + r.randint(-3, 3)])
+            r.shuffle(items)
+            return {'op': 'new', 'val': ['l', items], 'fmt': fmt, 'kw': kw}
         q = r.random()
         if q < 0.4:
             return {'op': 'new', 'val': val, 'fmt': fmt, 'kw': kw}
